@@ -231,6 +231,19 @@ def run_case(case, provider=None):
                         rec["summary"] = live["summary"]
             except Exception as e:
                 rec["outcome"] = _exc_info(e)
+                if "after_error" in want and "runner" in locals():
+                    # a caller that caught the error may go on asking the same runner: every later accessor answers or raises a library error
+                    after = []
+                    for name, fn in (("statements", lambda: runner.statements()), ("source", lambda: runner.source_tables), ("target", lambda: runner.target_tables),
+                                     ("intermediate", lambda: runner.intermediate_tables), ("columns", lambda: runner.get_column_lineage()),
+                                     ("cyto_table", lambda: runner.to_cytoscape()), ("summary", lambda: str(runner)), ("source_again", lambda: runner.source_tables)):
+                        try:
+                            fn()
+                            after.append({"accessor": name, "result": "returned"})
+                        except Exception as e2:
+                            i2 = _exc_info(e2)
+                            after.append({"accessor": name, "result": "raised", "exc_type": i2["exc_type"], "is_library_exception": i2["is_library_exception"], "message": i2["message"][:160]})
+                    rec["after_error"] = after
             finally:
                 if ctx is not None:
                     try:
